@@ -378,14 +378,19 @@ func (c *c03Corpus) conversations() []*c03Case {
 // ---------------------------------------------------------------------------
 // structural length fields
 
-type lenField struct{ off, width int }
+// role: 'L' length of a code/length/value item (its code field precedes it), 'C' code field,
+// 0 anything else (counts, label octets, header fields)
+type lenField struct {
+	off, width int
+	role       byte
+}
 
 // tlv16 scans code16/len16/value runs from off; recurses into the containers.
 func tlv16(b []byte, off, end, depth int, out *[]lenField) {
 	for off+4 <= end && len(*out) < 200 {
 		code := int(b[off])<<8 | int(b[off+1])
 		l := int(b[off+2])<<8 | int(b[off+3])
-		*out = append(*out, lenField{off + 2, 2}, lenField{off, 2})
+		*out = append(*out, lenField{off + 2, 2, 'L'}, lenField{off, 2, 'C'})
 		vend := min(off+4+l, end)
 		if depth < 6 {
 			hdr := -1
@@ -409,12 +414,12 @@ func tlv16(b []byte, off, end, depth int, out *[]lenField) {
 				}
 			case 15, 60: // uint16-prefixed items
 				for p := off + 4; p+2 <= vend; {
-					*out = append(*out, lenField{p, 2})
+					*out = append(*out, lenField{p, 2, 0})
 					p += 2 + (int(b[p])<<8 | int(b[p+1]))
 				}
 			case 16:
 				for p := off + 8; p+2 <= vend; {
-					*out = append(*out, lenField{p, 2})
+					*out = append(*out, lenField{p, 2, 0})
 					p += 2 + (int(b[p])<<8 | int(b[p+1]))
 				}
 			case 24:
@@ -432,7 +437,7 @@ func tlv16(b []byte, off, end, depth int, out *[]lenField) {
 
 func labelFields(b []byte, off, end int, out *[]lenField) {
 	for off < end && len(*out) < 200 {
-		*out = append(*out, lenField{off, 1})
+		*out = append(*out, lenField{off, 1, 0})
 		if b[off]&0xc0 == 0xc0 {
 			off += 2
 		} else {
@@ -448,13 +453,13 @@ func tlv8(b []byte, off, end int, out *[]lenField) {
 			continue
 		}
 		if b[off] == 255 {
-			*out = append(*out, lenField{off, 1})
+			*out = append(*out, lenField{off, 1, 0})
 			return
 		}
 		if off+1 >= end {
 			return
 		}
-		*out = append(*out, lenField{off + 1, 1}, lenField{off, 1})
+		*out = append(*out, lenField{off + 1, 1, 'L'}, lenField{off, 1, 'C'})
 		off += 2 + int(b[off+1])
 	}
 }
@@ -464,7 +469,7 @@ func lenFields(entry, sub string, b []byte) []lenField {
 	switch entry {
 	case "v6", "v6msg", "v6relay":
 		if len(b) > 0 {
-			out = append(out, lenField{0, 1})
+			out = append(out, lenField{0, 1, 0})
 			h := 4
 			if b[0] == 12 || b[0] == 13 {
 				h = 34
@@ -481,12 +486,12 @@ func lenFields(entry, sub string, b []byte) []lenField {
 		tlv16(w, 0, len(w), 0, &tmp)
 		for _, f := range tmp {
 			if f.off >= 4 {
-				out = append(out, lenField{f.off - 4, f.width})
+				out = append(out, lenField{f.off - 4, f.width, f.role})
 			}
 		}
 	case "v4":
 		if len(b) > 2 {
-			out = append(out, lenField{2, 1})
+			out = append(out, lenField{2, 1, 0})
 		}
 		if len(b) > 240 {
 			tlv8(b, 240, len(b), &out)
@@ -499,15 +504,15 @@ func lenFields(entry, sub string, b []byte) []lenField {
 			tlv8(b, 0, len(b), &out)
 		case "dhcpv4.VIVCIdentifiers":
 			for p := 4; p < len(b); p += 5 + int(b[p]) {
-				out = append(out, lenField{p, 1})
+				out = append(out, lenField{p, 1, 0})
 			}
 		case "dhcpv4.Strings":
 			for p := 0; p < len(b); p += 1 + int(b[p]) {
-				out = append(out, lenField{p, 1})
+				out = append(out, lenField{p, 1, 0})
 			}
 		case "dhcpv4.Routes":
 			if len(b) > 0 {
-				out = append(out, lenField{0, 1})
+				out = append(out, lenField{0, 1, 0})
 			}
 		case "rfc1035label.Labels":
 			labelFields(b, 0, len(b), &out)
@@ -516,14 +521,14 @@ func lenFields(entry, sub string, b []byte) []lenField {
 		labelFields(b, 0, len(b), &out)
 	case "duid":
 		if len(b) >= 2 {
-			out = append(out, lenField{0, 2})
+			out = append(out, lenField{0, 2, 0})
 		}
 	case "raw":
 		if len(b) >= 20 {
 			ihl := int(b[0]&0xf) * 4
-			out = append(out, lenField{0, 1}, lenField{2, 2}, lenField{9, 1})
+			out = append(out, lenField{0, 1, 0}, lenField{2, 2, 0}, lenField{9, 1, 0})
 			if ihl+6 <= len(b) {
-				out = append(out, lenField{ihl + 2, 2}, lenField{ihl + 4, 2})
+				out = append(out, lenField{ihl + 2, 2, 0}, lenField{ihl + 4, 2, 0})
 			}
 		}
 	}
@@ -679,7 +684,7 @@ func (w *c03Worker) mutate(entry, sub string, b []byte, r *Rng) ([]byte, string)
 			return m, "length-field"
 		}
 		if len(m) > 0 {
-			setField(m, lenField{r.Intn(len(m)), 1 + r.Intn(2)}, r.Intn(7))
+			setField(m, lenField{r.Intn(len(m)), 1 + r.Intn(2), 0}, r.Intn(7))
 			return m, "length-guess"
 		}
 	case 3: // splice with another input of the same entry
@@ -757,9 +762,9 @@ func (w *c03Worker) mutate(entry, sub string, b []byte, r *Rng) ([]byte, string)
 		return append(append(append([]byte{}, b[:i]...), r.Bytes(r.Range(1, 8))...), b[i:]...), "insert-random"
 	case 9: // option code confusion: a known code over another option's code field
 		var codeFields []lenField
-		for k := 1; k < len(fields); k += 2 {
-			if fields[k].off+2 == fields[k-1].off || fields[k].off+1 == fields[k-1].off {
-				codeFields = append(codeFields, fields[k])
+		for _, f := range fields {
+			if f.role == 'C' {
+				codeFields = append(codeFields, f)
 			}
 		}
 		if len(codeFields) > 0 {
@@ -989,4 +994,43 @@ func (w *c03Worker) generate(entry string, r *Rng, thorough bool) *c03Case {
 	}
 	_ = kind
 	return &c03Case{entry: entry, sub: sub, data: [][]byte{b}, tag: "mut:" + last}
+}
+
+func fieldVal(b []byte, f lenField) int {
+	if f.off+f.width > len(b) {
+		return 0
+	}
+	if f.width == 2 {
+		return int(b[f.off])<<8 | int(b[f.off+1])
+	}
+	return int(b[f.off])
+}
+
+// tlvRemovals: the input with one complete code/length/value item removed and
+// the lengths of the items enclosing it reduced accordingly (minimisation).
+func tlvRemovals(entry, sub string, b []byte) [][]byte {
+	fs := lenFields(entry, sub, b)
+	var out [][]byte
+	for _, f := range fs {
+		if f.role != 'L' {
+			continue
+		}
+		start, end := f.off-f.width, f.off+f.width+fieldVal(b, f)
+		if start < 0 || end > len(b) {
+			continue
+		}
+		m := append(append([]byte{}, b[:start]...), b[end:]...)
+		for _, g := range fs {
+			if g.role == 'L' && g.off < start && g.off+g.width+fieldVal(b, g) >= end {
+				v := fieldVal(b, g) - (end - start)
+				if g.width == 2 {
+					m[g.off], m[g.off+1] = byte(v>>8), byte(v)
+				} else {
+					m[g.off] = byte(v)
+				}
+			}
+		}
+		out = append(out, m)
+	}
+	return out
 }
